@@ -29,8 +29,13 @@ def _ensure_env():
 
 _ensure_env()
 sys.path.insert(0, HERE)
-if "/repo" not in sys.path:
-    sys.path.insert(1, "/repo")
+# The tree under check is /repo.  XDIS_VERIF_REPO (used only by tools/run_seeds.sh to try a seeded change in a scratch
+# worktree without touching /repo) points the same machinery at another checkout; XDIS_VERIF_OUT then receives the
+# evidence and replay files so that /verif/evidence always describes /repo.
+REPO = os.environ.get("XDIS_VERIF_REPO", "/repo")
+OUT = os.environ.get("XDIS_VERIF_OUT", HERE)
+if REPO != "/repo" or "/repo" not in sys.path:
+    sys.path.insert(1, REPO)
 sys.dont_write_bytecode = True
 
 import argparse  # noqa: E402
@@ -195,7 +200,7 @@ def main():
             known_hits.append((ob, cex, desc))
             r["known_finding"] = ob.region
             continue
-        rd = os.path.join(HERE, "replays", prop)
+        rd = os.path.join(OUT, "replays", prop)
         os.makedirs(rd, exist_ok=True)
         blob = json.dumps({"property": prop, "obligation": ob.id, "tier": args.tier,
                            "input": _jsonable(cex), "observed": desc, "skeleton": ob.skeleton}, indent=1, sort_keys=True)
@@ -309,8 +314,8 @@ def write_evidence(prop, tier, seed, mod, obs, results, violations, known_hits, 
         "wall_s": round(wall, 2),
         "violations": len(violations),
     }
-    os.makedirs(os.path.join(HERE, "evidence"), exist_ok=True)
-    with open(os.path.join(HERE, "evidence", "%s.json" % prop), "w") as f:
+    os.makedirs(os.path.join(OUT, "evidence"), exist_ok=True)
+    with open(os.path.join(OUT, "evidence", "%s.json" % prop), "w") as f:
         json.dump(ev, f, indent=1, sort_keys=True)
         f.write("\n")
 
